@@ -64,6 +64,7 @@ def gen_case(rng, big=False):
         for i in range(d):
             for j in range(i):
                 H[i][j] = dec(rng, -0.8, 0.8)
+        common.sparse_tilt(rng, H)
     ppp = ["1"] * d if rng.random() < 0.5 else [rng.choice(["0", "1"]) for _ in range(d)]
     types = [rng.randint(1, nt) for _ in range(n)]
     if rng.random() < 0.35:
